@@ -112,12 +112,19 @@ package openapi3
 //@   ensures result != nil
 
 // path marking returns the error it was given
+//@ spec rpath(e error) []string := e.(*SchemaError).reversePath
 //@ func markSchemaErrorKey
 //@   modifies SchemaError.reversePath
 //@   ensures result == err
+//@   ensures @C12 [key-appended] typeof(err) == type *SchemaError && err.(*SchemaError) != nil && old(err.(*SchemaError).Origin) == nil ==> len(rpath(err)) == old(len(rpath(err))) + 1 && rpath(err)[len(rpath(err)) - 1] == key && (forall j int :: 0 <= j && j < old(len(rpath(err))) ==> rpath(err)[j] == old(rpath(err)[j]))
+//@   option safety-tags none
+//@   tag C12
 //@ func markSchemaErrorIndex
 //@   modifies SchemaError.reversePath
 //@   ensures result == err
+//@   ensures @C12 [index-appended] 0 <= index && typeof(err) == type *SchemaError && err.(*SchemaError) != nil && old(err.(*SchemaError).Origin) == nil ==> len(rpath(err)) == old(len(rpath(err))) + 1 && rpath(err)[len(rpath(err)) - 1] == formatInt(index, 10)
+//@   option safety-tags none
+//@   tag C12
 
 //@ fnfield SliceUniqueItemsChecker (items)
 //@   modifies nothing
@@ -143,6 +150,7 @@ package openapi3
 //@   loop 0 invariant (len(me) == 0) <==> (sizeOK(schema, len(value)) && (schema.UniqueItems ==> distinct(value)) && (forall j int :: 0 <= j && j < #i ==> valid(schema.Items.Value, value[j])))
 //@   ensures [verdict] (result == nil) <==> validArray(schema, value)
 //@   ensures [nonempty-multi] typeof(result) == type MultiError ==> len(result.(MultiError)) > 0
+//@   option marks-child-errors yes
 //@   tag C01 C10 C12
 
 // ---- objects: type, minProperties/maxProperties, properties, additionalProperties, required ----
@@ -195,6 +203,7 @@ package openapi3
 //@   loop 4 invariant (modeOK(schema, settings, value) && propsSizeOK(schema, len(value)) && (forall k string :: has(value, k) ==> propOK(schema, k, value[k])) && (forall j int :: 0 <= j && j < #i ==> has(value, schema.Required[j]) || exemptProp(schema, settings, schema.Required[j]))) ==> len(me) == 0
 //@   ensures [verdict] (result == nil) <==> validObjectIn(schema, settings, value)
 //@   ensures [nonempty-multi] typeof(result) == type MultiError ==> len(result.(MultiError)) > 0
+//@   option marks-child-errors yes
 //@   tag C01 C10 C12
 
 // ---- null, boolean ----
@@ -392,3 +401,16 @@ package openapi3
 //@   modifies nothing
 //@   fresh
 //@   ensures result != nil && result.Ref == ref && result.Value == value
+
+// ---- C12, part 2: where a reported error points. The marking functions append the child's key to
+// the error's reverse path; JSONPointer reverses that path. (That every child error is marked with
+// the child's own key before it leaves the visitor is a label obligation on the array and object
+// visitors, option marks-child-errors.)
+//@ func (*SchemaError).JSONPointer
+//@   requires err != nil
+//@   modifies nothing
+//@   loop 0 invariant 0 <= left && left <= len(path) && right == len(path) - 1 - left && len(path) == len(err.reversePath) && fresh(path)
+//@   loop 0 invariant forall j int :: 0 <= j && j < left ==> path[j] == err.reversePath[len(path) - 1 - j] && path[len(path) - 1 - j] == err.reversePath[j]
+//@   loop 0 invariant forall j int :: left <= j && j <= right ==> path[j] == err.reversePath[j]
+//@   ensures [reversed] len(result) == len(err.reversePath) && (forall j int :: 0 <= j && j < len(result) ==> result[j] == err.reversePath[len(result) - 1 - j])
+//@   tag C12
